@@ -275,7 +275,10 @@ fn std_hash<T: std::hash::Hash>(t: &T) -> u64 {
 fn c14_laws(rep: &mut Report, tier: Tier) {
     let leaves = [RV::Null, RV::Bool(true), RV::num("0"), RV::num("1"), RV::num("1.0"), RV::str(""), RV::str("a")];
     let keys = ["a", "b"];
-    let n = tier.pick(2, 3);
+    // (three nodes are needed for an object with two entries - the smallest place where the
+    // order of objects can disagree between key and value comparisons)
+    let _ = tier;
+    let n = 3;
     let g = Gen::new(&leaves, &keys, n);
     let univ = g.up_to(n);
     let expected: u128 = (1..=n).map(|i| Gen::expected_count(leaves.len(), keys.len(), i)).sum();
